@@ -60,11 +60,11 @@ func runFileOps(f afero.File, ops []visoOp) []string {
 			}()
 			switch op.kind {
 			case 'A':
-				buf := make([]byte, op.n)
+				buf := dirtyBuf(op.n)
 				n, err := f.ReadAt(buf, op.off)
 				out = append(out, fmt.Sprintf("%d/%s/%s", n, errClass(err), digest(buf[:max(n, 0)])))
 			case 'R':
-				buf := make([]byte, op.n)
+				buf := dirtyBuf(op.n)
 				total := 0
 				var err error
 				for total < op.n && err == nil {
